@@ -6,7 +6,7 @@ Import ListNotations.
 Local Open Scope string_scope.
 
 Definition all_kinds : list tkind :=
-  [Lexer.AND; Lexer.ASSIGN; Lexer.ASTERISK; Lexer.ASTERISK_EQUALS; Lexer.BACKTICK; Lexer.FSTRING; Lexer.BANG; Lexer.CASE; Lexer.COLON; Lexer.COMMA; Lexer.CONST; Lexer.DECLARE; Lexer.DEFAULT; Lexer.DEFER; Lexer.FUNC; Lexer.ELSE; Lexer.EOF; Lexer.EQ; Lexer.FALSE; Lexer.FLOAT; Lexer.FOR; Lexer.GT; Lexer.GT_GT; Lexer.GT_EQUALS; Lexer.GO; Lexer.IDENT; Lexer.IF; Lexer.INT; Lexer.LBRACE; Lexer.LBRACKET; Lexer.LPAREN; Lexer.LT; Lexer.LT_LT; Lexer.LT_EQUALS; Lexer.MINUS; Lexer.MINUS_EQUALS; Lexer.MINUS_MINUS; Lexer.MOD; Lexer.NOT_EQ; Lexer.NIL; Lexer.NOT; Lexer.PIPE; Lexer.OR; Lexer.PERIOD; Lexer.PLUS; Lexer.AMPERSAND; Lexer.PLUS_EQUALS; Lexer.PLUS_PLUS; Lexer.POW; Lexer.QUESTION; Lexer.RBRACE; Lexer.RBRACKET; Lexer.RETURN; Lexer.RPAREN; Lexer.SEMICOLON; Lexer.SEND; Lexer.SLASH; Lexer.SLASH_EQUALS; Lexer.STRING; Lexer.STRUCT; Lexer.SWITCH; Lexer.TRUE; Lexer.NEWLINE; Lexer.IMPORT; Lexer.BREAK; Lexer.CONTINUE; Lexer.VAR; Lexer.IN; Lexer.RANGE; Lexer.FROM; Lexer.AS; Lexer.EMPTY].
+  [Lexer.AND; Lexer.ASSIGN; Lexer.ASTERISK; Lexer.ASTERISK_EQUALS; Lexer.BACKTICK; Lexer.FSTRING; Lexer.BANG; Lexer.CASE; Lexer.COLON; Lexer.COMMA; Lexer.CONST; Lexer.DECLARE; Lexer.DEFAULT; Lexer.DEFER; Lexer.FUNC; Lexer.ELSE; Lexer.EOF; Lexer.EQ; Lexer.FALSE; Lexer.FLOAT; Lexer.FOR; Lexer.GT; Lexer.GT_GT; Lexer.GT_EQUALS; Lexer.GO; Lexer.IDENT; Lexer.IF; Lexer.INT; Lexer.LBRACE; Lexer.LBRACKET; Lexer.LPAREN; Lexer.LT; Lexer.LT_LT; Lexer.LT_EQUALS; Lexer.MINUS; Lexer.MINUS_EQUALS; Lexer.MINUS_MINUS; Lexer.MOD; Lexer.NOT_EQ; Lexer.NIL; Lexer.NOT; Lexer.PIPE; Lexer.OR; Lexer.PERIOD; Lexer.PLUS; Lexer.AMPERSAND; Lexer.PLUS_EQUALS; Lexer.PLUS_PLUS; Lexer.POW; Lexer.QUESTION; Lexer.RBRACE; Lexer.RBRACKET; Lexer.RETURN; Lexer.RPAREN; Lexer.SEMICOLON; Lexer.SEND; Lexer.SLASH; Lexer.SLASH_EQUALS; Lexer.STRING; Lexer.STRUCT; Lexer.SWITCH; Lexer.TRUE; Lexer.NEWLINE; Lexer.IMPORT; Lexer.BREAK; Lexer.CONTINUE; Lexer.VAR; Lexer.IN; Lexer.RANGE; Lexer.FROM; Lexer.AS; Lexer.ILLEGAL; Lexer.EMPTY].
 
 Definition kind_name (k : tkind) : string :=
   match k with
@@ -81,6 +81,7 @@ Definition kind_name (k : tkind) : string :=
   | Lexer.RANGE => "RANGE"
   | Lexer.FROM => "FROM"
   | Lexer.AS => "AS"
+  | Lexer.ILLEGAL => "ILLEGAL"
   | Lexer.EMPTY => ""
   end.
 
